@@ -102,7 +102,7 @@ def main(ctx):
     files = corpus_files()
     rnd = ctx.rng("corpus")
     if ctx.quick:
-        files = rnd.sample(files, min(len(files), 480))
+        files = rnd.sample(files, min(len(files), 320))
     ctx.extra["corpus_files_considered"] = len(files)
     nchunks = 48
     jobs = [{"files": files[k::nchunks]} for k in range(nchunks)]
